@@ -199,6 +199,16 @@ func TestVerifC08(t *testing.T) {
 		}
 		add(vfHostile{method: "GET", url: "/livesim2/" + a + "x/" + tl["mpd"] + "?nowMS=1000", kind: "unknown-asset", want404: true})
 	}
+	// (2b) chunked delivery with an availabilityTimeOffset a hair below, at and above typical segment durations (2, 6 and 8 s): the chunk
+	// duration is their difference, which the media timescale rounds to zero or just above
+	for _, a := range assets {
+		tl := tails(a)
+		for tn, tv := range tl {
+			for _, v := range []string{"1.999995", "1.9999999", "2", "2.000001", "1.99999", "5.999996", "6", "7.999995", "7.9999999", "8", "8.000004"} {
+				add(mk("ato_"+v+"/chunkdur_0.5", a, tv, "tail="+tn+"|cfg=ato-at-segment-duration"))
+			}
+		}
+	}
 	// (3) pairwise sample of keys/values
 	rng := r.Rand(8)
 	valNames := []string{}
